@@ -136,13 +136,12 @@ theorem lvlOk_kids {S : Schema} {s : Nat} {f : Flags} {m : List Meta} {ks : List
   simp only [lvlOk, Bool.and_eq_true, List.all_eq_true] at h
   exact ⟨h.1.1.2, h.1.2, h.2⟩
 
-/-- processing another source sibling keeps `x` absorbed -/
-theorem step_other (S : Schema) (o : MergeOpts) (ctx : List Ctx) (x y : DNode) (st : St)
-    (hx : Absorbed S o x st.cur) (hxy : matchP S x y = false) (hlx : lvlOk S x = true) (hdx : S.isDupInst x.sid = false)
-    (hy : SrcOk S y) (hc : lvlOkL S st.cur = true) : Absorbed S o x (mergeNode S o ctx y st).cur := by
+/-- processing a source sibling `y` that does not have `x`'s identity leaves the node found for `x` alone -/
+theorem absAt_step_other (S : Schema) (o : MergeOpts) (ctx : List Ctx) (x y : DNode) (st : St) (Φ : DNode → Prop)
+    (hx : AbsAt S x st.cur Φ) (hxy : matchP S x y = false) (hlx : lvlOk S x = true) (hdx : S.isDupInst x.sid = false)
+    (hy : SrcOk S y) (hc : lvlOkL S st.cur = true) : AbsAt S x (mergeNode S o ctx y st).cur Φ := by
   obtain ⟨hly, hfy, _, hdy'⟩ := hy
   have hdy := noDupInst_sid hdy'
-  rw [absorbed_eq] at hx ⊢
   rcases firstIdx_eq_none_or (matchP S y) st.cur with hnone | ⟨j, t, hj, hg, hm⟩
   · rw [mergeNode_unmatched S o ctx y st hdy hnone, insertSrc_cur, insNode_eq_cp S o y hfy]
     exact hx.insert _ (by rw [cp, matchP_relabel_right]; exact hxy)
@@ -180,6 +179,30 @@ theorem step_other (S : Schema) (o : MergeOpts) (ctx : List Ctx) (x y : DNode) (
           ({ np := S.isNpCont (DNode.inner ts tf tm tk).sid, others := allDfltExcept st.cur j } :: ctx) ts sks tk
           { cur := tk, cache := [], anc := tf.dflt :: st.anc } rfl hs1 hs2 ht2
         exact hx.set j _ _ hg hxt (by rw [matchP_setKids S x _ _ _ hdx hk rfl]; exact hxt)
+
+/-- processing another source sibling keeps `x` absorbed -/
+theorem step_other (S : Schema) (o : MergeOpts) (ctx : List Ctx) (x y : DNode) (st : St)
+    (hx : Absorbed S o x st.cur) (hxy : matchP S x y = false) (hlx : lvlOk S x = true) (hdx : S.isDupInst x.sid = false)
+    (hy : SrcOk S y) (hc : lvlOkL S st.cur = true) : Absorbed S o x (mergeNode S o ctx y st).cur := by
+  rw [absorbed_eq] at hx ⊢
+  exact absAt_step_other S o ctx x y st _ hx hxy hlx hdx hy hc
+
+/-- … and so does a whole run of them -/
+theorem absAt_preserved (S : Schema) (o : MergeOpts) (x : DNode) (Φ : DNode → Prop) (hlx : lvlOk S x = true)
+    (hdx : S.isDupInst x.sid = false) : ∀ (cs : List DNode) (ctx : List Ctx) (ld : Bool) (st : St),
+    AbsAt S x st.cur Φ → (∀ y ∈ cs, matchP S x y = false) → (∀ y ∈ cs, SrcOk S y) → lvlOkL S st.cur = true →
+    AbsAt S x (mergeKids S o ctx ld cs st).cur Φ
+  | [], _, _, _, hx, _, _, _ => by simpa [mergeKids] using hx
+  | c :: cs, ctx, ld, st, hx, hm, hs, hc => by
+    simp only [mergeKids]
+    split
+    · exact absAt_preserved S o x Φ hlx hdx cs ctx true st hx (fun y hy => hm y (by simp [hy]))
+        (fun y hy => hs y (by simp [hy])) hc
+    · have hsc := hs c (by simp)
+      exact absAt_preserved S o x Φ hlx hdx cs ctx false _
+        (absAt_step_other S o ctx x c st Φ hx (hm c (by simp)) hlx hdx hsc hc)
+        (fun y hy => hm y (by simp [hy])) (fun y hy => hs y (by simp [hy]))
+        (lvlOk_mergeNode S o c ctx st hsc.1 hsc.2.1 hc)
 
 theorem absorbed_preserved (S : Schema) (o : MergeOpts) (x : DNode) (hlx : lvlOk S x = true)
     (hdx : S.isDupInst x.sid = false) : ∀ (cs : List DNode) (ctx : List Ctx) (ld : Bool) (st : St),
